@@ -1916,6 +1916,12 @@ func (query *Query) exec() (result any, err error) {
 	if err != nil {
 		return nil, err
 	}
+	// DISTINCT and ORDER BY compare the projected values: asynchronous select items are awaited
+	// and their slots resolved first (the post processors do the same again later, harmlessly)
+	if query.distinct || len(query.orderByDefinition) > 0 {
+		query.wg.Wait()
+		resolveAsyncSlots(rs)
+	}
 	rs, err = ExecDistinct(query, rs)
 	if err != nil {
 		return nil, err
@@ -1941,6 +1947,27 @@ FINALIZE:
 		query.options.completed()
 	}
 	return rs, nil
+}
+
+// resolveAsyncSlots replaces the *any slots that ASYNC select items leave in projected rows by the
+// values the finished calls have stored in them
+func resolveAsyncSlots(rows []any) {
+	for _, row := range rows {
+		row, ok := row.(Map)
+		if !ok {
+			continue
+		}
+		for key, value := range row {
+			for {
+				slot, ok := value.(*any)
+				if !ok || slot == nil {
+					break
+				}
+				value = *slot
+			}
+			row[key] = value
+		}
+	}
 }
 
 // matched returns the rows whole-table aggregates operate on: the rows that
